@@ -3,6 +3,7 @@ package c18
 import (
 	"fmt"
 	"strings"
+	"time"
 
 	"github.com/hashicorp/consul/internal/storage/inmem"
 	"github.com/hashicorp/consul/internal/verifmc/ev"
@@ -50,8 +51,18 @@ func lwScenarios(quick bool) []*lwScenario {
 	return out
 }
 
-// runLW executes one schedule.
+// runLW executes one schedule. With a wildcard watcher the publisher appends one batch to two topic buffers in the
+// order of a Go map walk, so a recorded prefix may not fit the order this execution takes; it is then run again.
 func runLW(sc *lwScenario, prefix []int) (*sched.Run, *wexec) {
+	for try := 0; ; try++ {
+		r, e := runLWOnce(sc, prefix)
+		if !r.Diverged || try == 30 {
+			return r, e
+		}
+	}
+}
+
+func runLWOnce(sc *lwScenario, prefix []int) (*sched.Run, *wexec) {
 	be, err := inmem.NewBackend()
 	if err != nil {
 		panic(err)
@@ -69,6 +80,7 @@ func runLW(sc *lwScenario, prefix []int) (*sched.Run, *wexec) {
 	}
 	r := sched.New(prefix)
 	r.Atomics = true
+	r.TolerateDivergence = true
 	writersLeft := len(sc.writers)
 	pubDone := false
 	for i, prog := range sc.writers {
@@ -109,7 +121,7 @@ func runLW(sc *lwScenario, prefix []int) (*sched.Run, *wexec) {
 		})
 	}
 	r.Execute()
-	if r.Hung != "" || r.Deadlock {
+	if r.Hung != "" || r.Deadlock || r.Diverged {
 		return r, e
 	}
 	// quiescence (outside the scheduler): everything published and consumed
@@ -127,7 +139,9 @@ func partLW(c *ev.Ctx) {
 		bound = 2
 	}
 	scs := lwScenarios(c.Quick())
-	var total, deadlocks, capped int64
+	// this part may use a third of what is left of the time budget
+	limit := time.Now().Add(time.Until(c.Deadline) / 3)
+	var total, deadlocks, capped, unreplayable int64
 	outcomes := map[string]bool{}
 	maxPoints := 0
 	for _, sc := range scs {
@@ -140,6 +154,10 @@ func partLW(c *ev.Ctx) {
 			}
 			if r.Hung != "" {
 				c.HarnessError("lock-level watch exploration: " + r.Hung)
+				return
+			}
+			if r.Diverged {
+				unreplayable++
 				return
 			}
 			rp := map[string]any{"scenario": sc.label, "schedule": r.Trace, "choices": r.Choices}
@@ -165,7 +183,7 @@ func partLW(c *ev.Ctx) {
 					continue
 				}
 				for alt := 1; alt < r.Alts[i]; alt++ {
-					if c.Expired() {
+					if c.Expired() || time.Now().After(limit) {
 						capped++
 						return
 					}
@@ -184,6 +202,10 @@ func partLW(c *ev.Ctx) {
 	c.Set("lock_level_watch_max_scheduling_points", maxPoints)
 	c.Set("lock_level_watch_distinct_outcomes", len(outcomes))
 	c.Set("lock_level_watch_deadlocks", deadlocks)
+	c.Set("lock_level_watch_prefixes_not_replayable_in_30_tries", unreplayable)
+	if unreplayable > 0 {
+		c.Cap("some schedule prefixes could not be replayed (map iteration order inside the publisher)")
+	}
 	if capped > 0 {
 		c.Set("lock_level_watch_capped_by_time_budget", true)
 		c.Cap("lock-level watch exploration stopped by the time budget")
